@@ -30,6 +30,9 @@ ENV = dict(os.environ, CARGO_NET_OFFLINE="true")
 PROPS = {
     "C06": dict(quick=3000, thorough=60000, events=None, runs_thorough=8),
     "C07": dict(quick=4000, thorough=80000, events=None, runs_thorough=8),
+    "C01": dict(quick=4000, thorough=120000, events=None, runs_thorough=12),
+    "C02": dict(quick=4000, thorough=120000, events=None, runs_thorough=12),
+    "C03": dict(quick=4000, thorough=120000, events=None, runs_thorough=12),
 }
 
 TRUSTED_BASE = [
@@ -188,11 +191,11 @@ def run_pair(prop, seed, n, tag):
                  timeout=3600)
     if rc != 0:
         raise RuntimeError("harness genrun failed: " + out[-2000:])
-    return run_driver(ops, imp, mod)
+    return run_driver(prop, ops, imp, mod)
 
 
-def run_driver(ops, imp, mod):
-    rc, out = sh([os.path.join(LEAN, ".lake", "build", "bin", "driver"), ops, imp, mod], timeout=3600)
+def run_driver(prop, ops, imp, mod):
+    rc, out = sh([os.path.join(LEAN, ".lake", "build", "bin", "driver"), prop, ops, imp, mod], timeout=3600)
     if rc != 0:
         raise RuntimeError("driver failed: " + out[-2000:])
     recs = []
@@ -208,7 +211,7 @@ def run_driver(ops, imp, mod):
     return recs
 
 
-def replay_ops(opsfile, tag):
+def replay_ops(prop, opsfile, tag):
     d = os.path.join(WORK, f"replay_{tag}")
     os.makedirs(d, exist_ok=True)
     imp, mod = os.path.join(d, "impl.txt"), os.path.join(d, "model.txt")
@@ -222,7 +225,7 @@ def replay_ops(opsfile, tag):
         for l in f:
             if l.strip() and not l.startswith("#"):
                 g.write(l)
-    return run_driver(ops_clean, imp, mod)
+    return run_driver(prop, ops_clean, imp, mod)
 
 
 def sequence_of(recs, idx):
@@ -283,7 +286,7 @@ def shrink(prop, lines, key, events):
         with open(p, "w") as f:
             f.write("\n".join(cand) + "\n")
         try:
-            recs = replay_ops(p, f"{prop}_shrink")
+            recs = replay_ops(prop, p, f"{prop}_shrink")
         except Exception:
             return False
         return any(v.split(" ")[0] == key for (_o, _i, _m, v) in recs)
@@ -297,8 +300,13 @@ def shrink(prop, lines, key, events):
         i = 0
         changed = False
         while i < len(cur) and budget > 0:
-            cand = cur[:i] + cur[i + chunk:]
+            # `note sig` lines declare which signatures are genuine: never dropped, or the
+            # shrunk replay would misjudge a valid proof as forged
+            cand = cur[:i] + [l for l in cur[i:i + chunk] if l.startswith("note ")] + cur[i + chunk:]
             budget -= 1
+            if len(cand) == len(cur):
+                i += chunk
+                continue
             # never drop the leading reset
             if cand and (not cur[0].startswith("reset") or cand[0].startswith("reset")) and still_fails(cand):
                 cur = cand
@@ -396,7 +404,7 @@ def main(argv):
         return len(dis), len(vio)
 
     if replay:
-        recs = replay_ops(replay, prop + "_user")
+        recs = replay_ops(prop, replay, prop + "_user")
         consume(recs, "replay")
         for o, i_, m, v in recs:
             log(f"{o[:100]}\n   impl : {i_[:200]}\n   model: {m[:200]}\n   judge: {v}")
@@ -406,7 +414,7 @@ def main(argv):
         if os.path.isdir(cdir):
             for fn in sorted(os.listdir(cdir)):
                 if fn.endswith(".ops"):
-                    recs = replay_ops(os.path.join(cdir, fn), f"{prop}_corpus")
+                    recs = replay_ops(prop, os.path.join(cdir, fn), f"{prop}_corpus")
                     consume(recs, "corpus/" + fn)
         if tier == "quick":
             consume(run_pair(prop, seed, cfg["quick"], "q"), f"seed {seed}")
